@@ -8,22 +8,13 @@ import Rooc.Pre.Prim
 import Rooc.Pre.Types
 import Rooc.Pre.Expand
 import Rooc.Proofs.Field
+import Rooc.Proofs.Pre
 namespace Rooc.Props.C18
 set_option linter.unusedSectionVars false
-open Rooc Rooc.Pre
+open Rooc Rooc.Pre Rooc.Proofs.Pre
 
 section generic
 variable {α : Type} [Arith α]
-
-theorem inI64_iff (x : Int) : inI64 x = true ↔ (-9223372036854775808 ≤ x ∧ x ≤ 9223372036854775807) := by
-  unfold inI64 i64Min i64Max
-  rw [Bool.and_eq_true, decide_eq_true_iff, decide_eq_true_iff]
-theorem inU64_iff (x : Int) : inU64 x = true ↔ (0 ≤ x ∧ x ≤ 18446744073709551615) := by
-  unfold inU64 u64Max
-  rw [Bool.and_eq_true, decide_eq_true_iff, decide_eq_true_iff]; rfl
-
-theorem pint_wf_iff {α : Type} (n : Nat) : (Prim.pint n : Prim α).wf = true ↔ n ≤ 18446744073709551615 := by
-  unfold Prim.wf u64Max; exact decide_eq_true_iff
 
 /-! ### binary operators never panic -/
 
@@ -63,12 +54,6 @@ example : applyBinary (.integer i64Max : Prim α) .add (.integer 1) = .error .ov
 
 /-! ### unary minus: the one reachable panic -/
 
-/-- the operand on which the unchecked `-self` / `-(*self as i64)` overflows -/
-def negatesMin : Prim α → Bool
-  | .integer i => i == i64Min
-  | .pint u => u64AsI64 u == i64Min
-  | _ => false
-
 /-- exact characterisation of the panic of `apply_unary_op` -/
 theorem applyUnary_panic_iff (op : UnOp) (a : Prim α) :
     applyUnary op a = .error .panic ↔ (op = .neg ∧ negatesMin a = true) := by
@@ -98,13 +83,6 @@ theorem negatesMin_pint_iff (u : Nat) (hu : u ≤ u64Max) : negatesMin (.pint u 
   split <;> simp <;> omega
 
 /-! ### the proposed repair (`fixes/C18-checked-neg.diff`) -/
-
-/-- `checked_neg` / `0i64.checked_sub_unsigned(u)` -/
-def applyUnaryFixed (op : UnOp) (a : Prim α) : Res α :=
-  match a, op with
-  | .integer i, .neg => ofI64 (checkedI64 (-i))
-  | .pint u, .neg => ofI64 (checkedI64 (-(u : Int)))
-  | a, op => applyUnary op a
 
 theorem no_panic_applyUnaryFixed (op : UnOp) (a : Prim α) : applyUnaryFixed op a ≠ .error .panic := by
   cases a with
@@ -229,11 +207,6 @@ end generic
 
 /-! ### ranges: the allocation is the difference of two user numbers -/
 
-theorem intsFrom_length (lo : Int) (n : Nat) : (intsFrom lo n).length = n := by
-  induction n generalizing lo with
-  | zero => rfl
-  | succ n ih => simp [intsFrom, ih]
-
 /-- `range_size`: the number of elements `NumericRange::call` materialises — bounded by nothing but
 the user's numbers (the hang / abort risk the harness exhibits with `0..100000000000`). -/
 theorem range_size (lo hi : Int) (inclusive : Bool) :
@@ -245,16 +218,6 @@ example : (rangeVals 0 100000000000 false).length = 100000000000 := by rw [range
 /-! ### numeric casts stay inside the target type (exact arithmetic with IEEE special values) -/
 section casts
 variable {K : Type} [Field K] [LinearOrder K] [IsStrictOrderedRing K] [FloorRing K]
-
-theorem toIntSat_range (lo hi : Int) (h0 : lo ≤ 0) (h1 : 0 ≤ hi) (x : Ext K) :
-    lo ≤ Ext.toIntSat lo hi x ∧ Ext.toIntSat lo hi x ≤ hi := by
-  cases x with
-  | nan => simp [Ext.toIntSat]; omega
-  | ninf => simp [Ext.toIntSat]; omega
-  | pinf => simp [Ext.toIntSat]; omega
-  | fin a =>
-    simp only [Ext.toIntSat, Ext.clampInt]
-    split <;> split <;> (try split) <;> omega
 
 /-- `as_integer_cast` (`*n as i64`, saturating) returns an `i64` -/
 theorem asIntegerCast_in_range (p : Prim (Ext K)) (hwf : p.wf = true) (i : Int) (h : asIntegerCast p = .ok i) : inI64 i = true := by
